@@ -37,10 +37,10 @@ REVERSIBLE = {
     "set_objective", "set_direction", "set_obj_coef", "add_cons", "add_var", "remove_cons_vars",
     "knock_out_gene", "set_functional", "knock_out_model_genes", "remove_genes", "rename_genes",
     "medium", "build_from_string", "optimize", "slim_optimize", "enter", "exit", "exit_exc",
-    "copy", "deepcopy", "pickle", "rxn_copy", "rxn_arith", "helper", "merge", "det_mutate", "repair", "config_bounds", "solver",
+    "copy", "deepcopy", "pickle", "rxn_copy", "rxn_arith", "helper", "merge", "det_mutate", "removed_mutate", "repair", "config_bounds", "solver",
 }
 LIFECYCLE = {"copy", "deepcopy", "pickle"}
-NO_CONTENT_CHANGE = {"optimize", "slim_optimize", "repair", "solver", "tolerance", "rxn_copy", "rxn_arith"}
+NO_CONTENT_CHANGE = {"optimize", "slim_optimize", "repair", "solver", "tolerance", "rxn_copy", "rxn_arith", "removed_mutate"}
 
 
 class _Null(io.TextIOBase):
@@ -804,7 +804,13 @@ class Hist:
         return r
 
     def do_add_reactions(self, a, op, env):
-        a.model.add_reactions([self._mk_rxn(a, s) for s in op["rxns"]])
+        rs = [self._mk_rxn(a, s) for s in op["rxns"]]
+        how = op.get("container", "list")
+        if how != "list":
+            # the signature says Iterable[Reaction]: a tuple, or a one-shot iterator
+            self.stats[f"probe:add_reactions_given_a_{how}"] += 1
+            rs = tuple(rs) if how == "tuple" else (r for r in rs) if how == "generator" else iter(rs)
+        a.model.add_reactions(rs)
 
     def do_remove_reactions(self, a, op, env):
         how = op.get("as", "obj")
@@ -814,13 +820,16 @@ class Hist:
                 items.append(rid)
             else:
                 items.append(self.rxn(a, rid))
+        if op.get("bad_tail"):
+            # an entry that is no reaction at all, after entries that are: the call raises part-way
+            items.append({"none": None, "float": 7.5}[op["bad_tail"]])
         objs = {rid: a.model.reactions.get_by_id(rid) for rid in op["rs"] if a.model.reactions.has_id(rid)}
         specs = {rid: self._rxn_spec(env.pre, rid) for rid in objs if rid in env.pre.rxns}
         if op.get("via") == "rxn" and len(items) == 1 and not isinstance(items[0], str):
             items[0].remove_from_model(remove_orphans=op.get("remove_orphans", False))
         else:
             a.model.remove_reactions(items, remove_orphans=op.get("remove_orphans", False))
-        if not a.model._contexts:
+        if not a.model._contexts and not op.get("bad_tail"):
             for rid, o in objs.items():
                 if rid in specs:
                     self.removed[(self.actors.index(a), rid)] = (o, specs[rid])
@@ -838,6 +847,21 @@ class Hist:
             raise Skip("stale")
         self.stats["probe:removed_reaction_object_readded"] += 1
         a.model.add_reactions([obj])
+
+    def do_removed_mutate(self, a, op, env):
+        """The rule of a reaction object that was removed from the model is edited while it is detached: the model it came from
+        (whose gene objects the reaction still knows) must not be affected."""
+        key = (self.actors.index(a), op["rid"])
+        ent = self.removed.get(key)
+        if ent is None or ent[0].model is not None:
+            raise Skip("no removed reaction object of that id")
+        obj, spec = ent
+        obj.gene_reaction_rule = op["rule"]
+        try:
+            spec["x"]["rule"] = gprtree.parse(obj.gene_reaction_rule)
+        except ValueError:
+            self.removed.pop(key)
+        self.stats["probe:removed_reaction_object_rule_edited"] += 1
 
     def do_set_objective(self, a, op, env):
         how, items = op["how"], op["items"]
@@ -931,6 +955,14 @@ class Hist:
             b = self.actors[bi]
             items = [b.model.genes.get_by_id(g) if isinstance(g, str) and b.model.genes.has_id(g) else g for g in op["genes"]]
             self.stats["probe:operand_from_another_live_model"] += 1
+        if op.get("list_key") and op.get("src") != "foreign":
+            # the caller keeps ONE list object (of ids or positions) and passes it to several calls, also on other models
+            store = self.__dict__.setdefault("caller_lists", {})
+            if op["list_key"] in store:
+                items = store[op["list_key"]]
+                self.stats["probe:argument_list_reused_across_calls"] += 1
+            else:
+                store[op["list_key"]] = items
         return knock_out_model_genes(a.model, items)
 
     def do_remove_genes(self, a, op, env):
@@ -1421,7 +1453,7 @@ ALL_KINDS = {
     "remove_genes": 2, "rename_genes": 1, "medium": 2, "build_from_string": 1, "optimize": 2,
     "slim_optimize": 2, "repair": 1, "solver": 1, "tolerance": 1, "compartments": 1, "add_groups": 1,
     "remove_groups": 1, "enter": 0, "exit": 0, "exit_exc": 0, "copy": 0, "deepcopy": 0, "pickle": 0,
-    "rxn_copy": 1, "rxn_arith": 1, "edit_dict": 1, "restart": 0, "helper": 1, "merge": 1, "readd_reaction": 3, "det_mutate": 1, "prune": 1, "config_bounds": 1, "group_edit": 1,
+    "rxn_copy": 1, "rxn_arith": 1, "edit_dict": 1, "restart": 0, "helper": 1, "merge": 1, "readd_reaction": 3, "det_mutate": 1, "prune": 1, "config_bounds": 1, "group_edit": 1, "removed_mutate": 1,
 }
 
 PROP_BIAS = {
@@ -1431,7 +1463,7 @@ PROP_BIAS = {
             "tolerance": 0, "compartments": 0, "add_groups": 0, "remove_groups": 0, "set_attr": 0,
             "edit_dict": 0},
     "C07": {"knock_out_gene": 12, "knock_out_model_genes": 8, "knock_out_rxn": 4, "set_functional": 4,
-            "set_rule": 6, "enter": 2, "exit": 3},
+            "set_rule": 6, "enter": 2, "exit": 3, "removed_mutate": 3, "remove_reactions": 4, "copy": 1},
     "C04": {"optimize": 14, "slim_optimize": 8, "solver": 2, "set_bounds": 8, "set_objective": 4, "set_direction": 3,
             "set_obj_coef": 3, "add_mets": 4, "add_reactions": 3, "remove_reactions": 2, "add_cons": 2, "add_var": 1,
             "enter": 1, "exit": 2, "copy": 1, "pickle": 1, "add_boundary": 3, "knock_out_gene": 2, "imul": 2},
@@ -1658,6 +1690,13 @@ def gen_op(rng, H, sw):
             op.update(kind=kind, id=i, which=which, key=rng.choice(["k1", "kegg", "sbo"]), value=val)
             if rng.random() < 0.35:
                 op.update(nested=True, value=rng.choice(["x1", "x2"]))
+                # aim at a container value that exists (in this model, hence also in its copies)
+                spots = [(kd, i2, wh, k2) for kd, tbl in (("rxn", ref.rxns), ("met", ref.mets), ("gene", ref.genes))
+                         for i2 in sorted(tbl) for wh in ("notes", "annotation") for k2, v2 in sorted(tbl[i2][wh].items())
+                         if isinstance(v2, list)]
+                if spots:
+                    kd, i2, wh, k2 = rng.choice(spots)
+                    op.update(kind=kd, id=i2, which=wh, key=k2)
     elif k == "add_metabolites":
         ms = []
         for _ in range(rng.randint(1, 2)):
@@ -1705,10 +1744,14 @@ def gen_op(rng, H, sw):
         elif inv and rng.random() < 0.5:
             specs[-1]["id"] = LONG_ID
         op["rxns"] = specs
+        if rng.random() < 0.2:
+            op["container"] = rng.choice(["tuple", "generator", "iterator"])
     elif k == "remove_reactions":
         rs = sorted({rid() for _ in range(rng.randint(1, 2))})
         if inv:
             rs.append("nope")
+        if inv and rng.random() < 0.4:
+            op["bad_tail"] = rng.choice(["none", "float"])
         op.update(rs=rs, remove_orphans=rng.random() < 0.4, via=rng.choice(["model", "model", "rxn"]))
         op["as"] = rng.choice(["obj", "id", "mixed"])
     elif k == "set_objective":
@@ -1766,6 +1809,16 @@ def gen_op(rng, H, sw):
         op["as"] = how
         if how == "obj" and len(H.actors) > 1 and rng.random() < 0.4:
             op.update(src="foreign", actor2=rng.choice([i for i in range(len(H.actors)) if i != ai]))
+        elif how in ("id", "idx") and not inv:
+            specs = H.__dict__.setdefault("caller_list_specs", {})
+            same = sorted(k for k, v in specs.items() if v[0] == how)
+            if same and rng.random() < 0.5:
+                key = rng.choice(same)
+                op.update(genes=list(specs[key][1]), list_key=key)  # the same list object again (perhaps on another model)
+            elif rng.random() < 0.5:
+                key = f"L{len(specs)}"
+                specs[key] = (how, list(gs))
+                op["list_key"] = key
     elif k == "remove_genes":
         if not gids:
             return gen_fallback(op, rid, rng)
@@ -1796,7 +1849,11 @@ def gen_op(rng, H, sw):
         chosen = rng.sample(pool, min(len(pool), rng.randint(1, 3)))
         cut = rng.randint(0, len(chosen))
         f = lambda ms: [[m, rng.choice([None, None, 2, 0.5])] for m in ms]
-        op.update(r=rid(), left=f(chosen[:cut]), right=f(chosen[cut:]), arrow=rng.choice(["-->", "<=>", "<--"]),
+        left, right = chosen[:cut], chosen[cut:]
+        if chosen and rng.random() < 0.3:
+            # the same metabolite named twice: on one side ("a + a --> b") or on both ("e + a <=> e + b")
+            (left if rng.random() < 0.5 else right).append(rng.choice(chosen))
+        op.update(r=rid(), left=f(left), right=f(right), arrow=rng.choice(["-->", "<=>", "<--"]),
                   via=rng.choice(["method", "setter"]))
     elif k == "optimize":
         if rng.random() < 0.4:
@@ -1867,6 +1924,14 @@ def gen_op(rng, H, sw):
         if not cands:
             return gen_fallback(op, rid, rng)
         op["rid"] = rng.choice(cands)
+    elif k == "removed_mutate":
+        cands = sorted(r for (i, r) in H.removed if i == ai and r not in ref.rxns)
+        if not cands:
+            return gen_fallback(op, rid, rng)
+        r0 = rng.choice(cands)
+        old = sorted(gprtree.genes(H.removed[(ai, r0)][1]["x"]["rule"])) if H.removed[(ai, r0)][1]["x"]["rule"] is not None else []
+        keep = rng.choice(old) if old else rng.choice(GENES[: sw["n_genes"]])
+        op.update(rid=r0, rule=rng.choice([keep, f"{keep} or {rng.choice(GENES[: sw['n_genes']])}", f"{keep} and gX"]))
     elif k == "det_mutate":
         dets = sorted(H.detached)
         if not dets:
